@@ -7,7 +7,7 @@
 """
 import math, random
 import numpy as np
-from mininec.mininec import Mininec, Wire, ideal_ground, Excitation, Medium
+from mininec.mininec import Mininec, Wire, Arc, Geo_Container, ideal_ground, Excitation, Medium
 from . import report as R
 
 # generic positions: no three collinear, pairwise >= 0.9 apart, z >= 1 for
@@ -68,12 +68,78 @@ def build_wires(inp, conc=None, radius=0.001, vary_radius=False):
     return ws
 
 
+ARC_SHIFT = np.array([5.0, 3.0, 0.0])
+ARC_R = 0.9
+
+
+def arc_params(o):
+    """angles and vertical offset of the arc that realises a curve object of the specification"""
+    g1, g2 = o['p1'] > 100, o['p2'] > 100
+    if o['p1'] == o['p2']:
+        return 0.0, 360.0, 2.0          # closed on itself, off the ground
+    if g1 and g2:
+        return 0.0, 180.0, 0.0
+    if g1:
+        return 0.0, 130.0, 0.0
+    if g2:
+        return 50.0, 180.0, 0.0
+    return 25.0, 145.0, 1.0
+
+
+class CurveConcretiser(Concretiser):
+    """point ids at the ends of the (single) curve object sit on the arc's end points"""
+
+    def __init__(self, inp, rnd=None, jitter=0.0):
+        super().__init__(None, jitter=jitter, scale=1.0)
+        self.rnd = rnd or random.Random(0)
+        self.fixed = {}
+        for o in inp:
+            if o.get('kind') == 'A':
+                a1, a2, z0 = arc_params(o)
+                arc = Arc(o['ns'], ARC_R, a1, a2, 0.001)
+                shift = ARC_SHIFT + np.array([0, 0, z0])
+                e1 = arc.segends[0] + shift
+                e2 = arc.segends[-1] + shift
+                self.fixed[o['p1']] = tuple(e1)
+                if o['p2'] != o['p1']:
+                    self.fixed[o['p2']] = tuple(e2)
+
+    def base(self, pid):
+        if pid in self.fixed:
+            return self.fixed[pid]
+        return Concretiser.base(self, pid)
+
+
 def build(inp, ground, conc=None, f=10.0, vary_radius=False, real_ground=False):
-    ws = build_wires(inp, conc, vary_radius=vary_radius)
     media = None
     if ground:
         media = [Medium(13.0, 0.005)] if real_ground else [ideal_ground]
-    return Mininec(f, ws, media=media)
+    if not any(o.get('kind') == 'A' for o in inp):
+        return Mininec(f, build_wires(inp, conc, vary_radius=vary_radius), media=media)
+    if conc is None or not isinstance(conc, CurveConcretiser):
+        conc = CurveConcretiser(inp, getattr(conc, 'rnd', None), getattr(conc, 'jitter', 0.0))
+    geo = Geo_Container()
+    seen = set()
+    arcs = []
+    for k, o in enumerate(inp):
+        tag = o['tag'] or None
+        if o.get('kind') == 'A':
+            a1, a2, z0 = arc_params(o)
+            obj = Arc(o['ns'], ARC_R, a1, a2, 0.001, tag=tag)
+            arcs.append((obj, ARC_SHIFT + np.array([0, 0, z0])))
+            seen.update((o['p1'], o['p2']))
+        else:
+            ends = []
+            for pid in (o['p1'], o['p2']):
+                ends.append(conc.point(pid, pid not in seen))
+                seen.add(pid)
+            r_k = 0.001 * (1.0 + 0.5 * (k % 3)) if vary_radius else 0.001
+            obj = Wire(o['ns'], *ends[0], *ends[1], r_k, tag=tag)
+        geo.append(obj)
+    geo.compute_tags()
+    for obj, shift in arcs:
+        geo.translate(1, shift, tag=obj.tag)
+    return Mininec(f, geo, media=media)
 
 
 def project(m):
@@ -232,10 +298,14 @@ def report_geometry(m):
 RUNS = {
     'quick': [('MC_Topology_q2.cfg', None, True),
               ('MC_Topology_free2.cfg', None, False),
+              ('MC_Topology_curve2.cfg', None, True),
+              ('MC_Topology_simcurve.cfg', 'num=300', True),
               ('MC_Topology_sim5.cfg', 'num=800', True),
               ('MC_Topology_simfree5.cfg', 'num=300', False)],
     'thorough': [('MC_Topology_q2.cfg', None, True),
                  ('MC_Topology_free2.cfg', None, False),
+                 ('MC_Topology_curve2.cfg', None, True),
+                 ('MC_Topology_simcurve.cfg', 'num=3000', True),
                  ('MC_Topology_t3.cfg', None, True),
                  ('MC_Topology_free3.cfg', None, False),
                  ('MC_Topology_sim5.cfg', 'num=8000', True),
@@ -285,6 +355,7 @@ def spec_records(chk, inputs, ground, name='on'):
         return []
     wd = C.workdir('on-' + name)
     tf = os.path.join(wd, 'inputs.json')
+    inputs = [[dict(o, kind=o.get('kind', 'W')) for o in inp] for inp in inputs]
     json.dump(inputs, open(tf, 'w'))
     nfree = max([p for inp in inputs for o in inp for p in (o['p1'], o['p2']) if p < 100] + [1])
     ngnd = max([p - 100 for inp in inputs for o in inp for p in (o['p1'], o['p2']) if p > 100] + [1])
@@ -293,7 +364,7 @@ def spec_records(chk, inputs, ground, name='on'):
             'OwnerIsLaterTag', 'TagOrder', 'AddrFormsAgree', 'AllOnce', 'KCL', 'FreeEndZero',
             'JunctionEndIsSum']
     open(cfg, 'w').write(
-        'CONSTANTS NObjMax = 99\n MaxSeg = 999\n NFree = %d\n NGnd = %d\n HasGround = %s\n MaxTag = 99\n'
+        'CONSTANTS NObjMax = 99\n MaxSeg = 999\n NFree = %d\n NGnd = %d\n HasGround = %s\n MaxTag = 99\n MaxCurves = 99\n'
         'INIT InitOn\nNEXT NextOn\n%s\nINVARIANT DumpOn\nINVARIANT RejectOn\nCHECK_DEADLOCK FALSE\n'
         % (nfree, ngnd, 'TRUE' if ground else 'FALSE', '\n'.join('INVARIANT ' + x for x in invs)))
     res = C.tlc('TopologyOn', os.path.relpath(cfg, C.SPEC), name='on-run-' + name, workers=4,
